@@ -279,13 +279,10 @@ func Explore(t *testing.T, sc *Scenario, r *rep.Report) {
 		if len(res.StuckLocks) > 0 {
 			vs = append(vs, "deadlock:"+lockSites(res.StuckLocks)+"\n"+strings.Join(res.StuckLocks, "; "))
 		}
-		for _, l := range res.Leftover {
-			name := l
-			if sc.AllowLeftover != nil && sc.AllowLeftover(name) {
-				continue
-			}
-			vs = append(vs, "thread-leak-after-teardown:"+leftKind(l)+"\n"+l)
-		}
+		// res.Leftover (threads that could not be released after the run) is NOT a verdict: the
+		// explorer ends an execution by killing parked threads, which can strand a thread that
+		// waits for one of them in a real channel operation. Leaks are judged by the scenario's
+		// own check at quiescence, before anything is killed.
 		if bp != "" && !strings.Contains(bp, "blocked goroutines remain") {
 			vs = append(vs, "bubble-panic:"+bp)
 		}
